@@ -59,10 +59,16 @@ TB == << TrTV(1, 12, 14, 256), TrTV(1, 12, 14, 192), TrNone(2, 5), TrNone(2, 2),
 TC == << TrTLV(1, 65535, 300, D(3, 51)), TrTV(1, 1, 142, 1), TrTLV(2, 7, 16385, D(1, 52)), TrTV(3, 0, 32767, 65535), TrTLV(5, 1, 14, D(300, 53)) >>
 TD == << TrNone(5, 0) >>
 TE == << TrTV(1, 12, 14, 0), TrTV(2, 65535, 0, 65535), TrTV(3, 256, 127, 128), TrTV(4, 255, 128, 255), TrTV(5, 2, 255, 256), TrTLV(4, 0, 0, << 0 >>) >>
+\* sweeps over transform identifiers: every ENCR id 0..31 (fixed-key-size ciphers included) with a Key Length attribute, every id
+\* 0..15 of the other types with the same attribute, another attribute type
+TFX == [i \in 1..32 |-> TrTV(1, i - 1, 14, IF i % 2 = 0 THEN 192 ELSE 128)]
+TGX == [i \in 1..64 |-> TrTV(((i - 1) \div 16) + 2, (i - 1) % 16, 14, 256)]
+THX == [i \in 1..32 |-> TrTV(1, i - 1, 15, i)]
 Prop(num, proto, sn, trs) == [num |-> num, proto |-> proto, spi |-> D(sn, 55 + sn + 3 * num), tr |-> trs]
 PropLists == { << >>, << Prop(1, 1, 0, TA) >>, << Prop(1, 3, 4, TB) >>, << Prop(0, 0, 255, TC) >>, << Prop(255, 255, 8, TD) >>,
                << Prop(2, 2, 1, TE) >>, << Prop(1, 1, 8, TA), Prop(2, 1, 8, TB), Prop(3, 3, 4, TD) >>,
                << Prop(1, 1, 0, TC), Prop(1, 1, 0, TC) >>,
+               << Prop(1, 1, 0, TFX) >>, << Prop(2, 3, 4, TGX) >>, << Prop(3, 1, 8, THX), Prop(4, 3, 4, TFX) >>,
                << Prop(9, 3, 4, [i \in 1..250 |-> TB[((i - 1) \div 25) + 1]]) >> }        \* 250 transforms, grouped by type
 SAs   == { [k |-> "SA", props |-> pl] : pl \in PropLists }
 
